@@ -87,17 +87,17 @@ theorem windows_tile : ∀ (ls : List Nat) (k : Nat), k < ls.sum →
 
 /-- **advanced begins**: the first `rank` elements of the k-merge are, up to order, exactly the prefixes
 `run_i[0, o_i)` of the partition at that rank — the inputs are advanced past what they contributed. -/
-theorem take_kMerge_perm_prefixes {lt : Int → Int → Bool} (hlt : StrictWeak lt) {runs : List (List Elem)}
-    (hw : WellTagged runs) (hk : KeySorted lt runs) {rank : Nat} {o : List Nat}
+theorem take_kMerge_perm_prefixes {lt : Int → Int → Bool} {tl : Elem → Elem → Prop} (hlt : StrictWeak lt)
+    (htl : TagOrder tl) {runs : List (List Elem)} (hg : GoodRuns lt tl runs) {rank : Nat} {o : List Nat}
     (hp : IsPartition lt (keyRuns runs) rank o) :
     ((kMerge lt runs).take rank).Perm (takes runs o).flatten := by
-  have hc : runs.flatten.Pairwise (Cond lt tagLt) := cond_of_wellTagged hw
+  have hc : runs.flatten.Pairwise (Cond lt tl) := hg.cond
   have hkl : (keyRuns runs).length = runs.length := by simp [keyRuns]
   have hlen : o.length = runs.length := by rw [hp.len, hkl]
-  have hsplit := sortStable_split hlt tagOrder_tagLt hc
+  have hsplit := sortStable_split hlt htl hc
     (List.Pairwise.sublist (takes_flatten_sublist runs o) hc)
     (List.Pairwise.sublist (drops_flatten_sublist runs o) hc)
-    (takes_drops_perm runs o hlen) (crossOrdered_of_partition hw hk hp)
+    (takes_drops_perm runs o hlen) (crossOrdered_of_partition hg hp)
   have hcount : (takes runs o).flatten.length = rank := by
     rw [takes_flatten_length runs o ?_ hlen, hp.sum]
     intro i r x hr hx
